@@ -288,7 +288,13 @@ func (u *Unit) Solve(order []string, timeoutMs, seed int, agree bool, dumpDir st
 	// incompleteness of quantifier instantiation shows up as `unknown` that depends on incidental details of the input
 	// (numbering of fresh constants): before an obligation counts as not discharged, the primary solver gets two more
 	// attempts with other random seeds, each query alone in its own session
-	if !agree {
+	nUndecided := 0
+	for _, qi := range todo {
+		if q := u.queries[qi]; !q.Short && !q.Cover && !isDecided(results[qi].Status) {
+			nUndecided++
+		}
+	}
+	if !agree && nUndecided <= 3 { // isolated unknowns only: a broken function fails many obligations at once
 		for _, qi := range todo {
 			q := u.queries[qi]
 			if q.Short || q.Cover || isDecided(results[qi].Status) {
